@@ -298,6 +298,11 @@ func concOpts(tok string) klevdb.Options {
 		o.Version.KeepRewriteVersion = true
 		tok = strings.TrimSuffix(tok, "k")
 	}
+	if strings.HasSuffix(tok, "v1") {
+		// the older record format (no file header, other reader code path)
+		o.Version.NewSegmentsVersion = klevdb.V1
+		tok = strings.TrimSuffix(tok, "v1")
+	}
 	o.Rollover = atoi(tok)
 	return o
 }
@@ -402,6 +407,8 @@ func runConc(a []string) {
 			fmt.Fprintln(out, "=", concStress(dir, int(atoi(f[1])), int(atoi(f[2]))))
 		case "cgcstress":
 			fmt.Fprintln(out, "=", concGCStress(dir, int(atoi(f[1])), int(atoi(f[2]))))
+		case "csyncack":
+			fmt.Fprintln(out, "=", concSyncAck(dir, int(atoi(f[1]))))
 		}
 		out.Flush()
 	}
@@ -490,6 +497,59 @@ func concStress(dir string, iters, ms int) string {
 	return fmt.Sprintf("ok ops=%d linearizable (stress: no call failed)", iters)
 }
 
+// csyncack <rounds>: Sync under load (C06) - four goroutines publish fixed-size messages into one segment while one
+// calls Sync over and over; the FS tap records the length of the log file at its last fsync.  What Sync returns must
+// be covered by that fsync: every message below the returned offset was in the file when it was fsynced.
+func concSyncAck(dir string, rounds int) string {
+	os.RemoveAll(dir)
+	os.MkdirAll(dir, 0700)
+	l, err := klevdb.Open(dir, klevdb.Options{Rollover: 1 << 30})
+	if err != nil {
+		return "err open " + errClass(err)
+	}
+	const recSize = 36 + 4 + 20 // V2 record: 36 bytes of framing, key, value
+	var lastSynced atomic.Int64
+	vhook.SetFS(func(kind, path string, n int64) {
+		if kind == "fsync" && strings.HasSuffix(path, ".log") {
+			lastSynced.Store(n)
+		}
+	})
+	defer vhook.SetFS(nil)
+	var stop atomic.Bool
+	var wg sync.WaitGroup
+	for g := 0; g < 4; g++ {
+		wg.Add(1)
+		go func() {
+			defer wg.Done()
+			for !stop.Load() {
+				if _, err := l.Publish([]klevdb.Message{{Key: []byte("kkkk"), Value: []byte("vvvvvvvvvvvvvvvvvvvv")}}); err != nil {
+					return
+				}
+			}
+		}()
+	}
+	res := ""
+	for i := 0; i < rounds && res == ""; i++ {
+		w, err := l.Sync()
+		if err != nil {
+			res = "err Sync " + errClass(err)
+			break
+		}
+		covered := (lastSynced.Load() - 8) / recSize
+		if w > covered {
+			res = fmt.Sprintf("err SyncAckNotCovered round=%d Sync returned %d but the log file held %d messages (%d bytes) when it was last fsynced",
+				i, w, covered, lastSynced.Load())
+		}
+	}
+	stop.Store(true)
+	wg.Wait()
+	l.Close()
+	if res != "" {
+		return res
+	}
+	return fmt.Sprintf("ok ops=%d linearizable (every Sync covered by its fsync)", rounds)
+}
+
 // cgcstress <iterations> <ms>: readers against GC - a log of many small sealed segments, eight goroutines reading it
 // (Consume with the cursor fed back, Get, both checked against what was published) while two goroutines unload every
 // segment with GC(0) over and over, so that segments are lazily loaded by several readers at once and unloaded
@@ -498,7 +558,11 @@ func concGCStress(dir string, iters, ms int) string {
 	for it := 0; it < iters; it++ {
 		os.RemoveAll(dir)
 		os.MkdirAll(dir, 0700)
-		l, err := klevdb.Open(dir, klevdb.Options{KeyIndex: it%2 == 0, TimeIndex: it%3 == 0, Rollover: 256})
+		o := klevdb.Options{KeyIndex: it%2 == 0, TimeIndex: it%3 == 0, Rollover: 256}
+		if it%2 == 1 {
+			o.Version.NewSegmentsVersion = klevdb.V1
+		}
+		l, err := klevdb.Open(dir, o)
 		if err != nil {
 			return "err open " + errClass(err)
 		}
